@@ -84,8 +84,11 @@ int write_uf2(Memory *memory, FILE *out)
   //bool need_magic_3;
 
   // Add code.
-  for (uint32_t i = memory->low_address; i <= memory->high_address; i++)
+  // 64 bit counter: high_address can be 0xffffffff and a 32 bit one would wrap.
+  for (uint64_t a = memory->low_address; a <= memory->high_address; a++)
   {
+    const uint32_t i = (uint32_t)a;
+
     if (ptr == 0)
     {
 #if 0
